@@ -856,4 +856,57 @@ def oracle_c20(r):
     return out
 
 
-ORACLES = {'C04': oracle_c04, 'C10': oracle_c10, 'C14': oracle_c14, 'C18': oracle_c18, 'C20': oracle_c20}
+def oracle_c09(r):
+    """malformed / misplaced requests: no adapter call, no reply, one handler notification (Data default: one FAL); service continues"""
+    out = []
+    sc = r.sc
+    if not quiescent_ok(r) or any(l.kind == 'close' for l in delivered(r)):
+        return out
+    dl = delivered(r)
+    rl = reply_lines(r)
+    rej = [l for l in dl if rejected_line(r, l)]
+    for l in rej:
+        if l.rid is not None and l.kind != 'init' and l.rid in rl:
+            out.append(('rejected request %s was answered: %r' % (l.wire_id, rl[l.rid][0][1][:80]), {'kind': 'malformed_answered'}))
+        if any(c.rid == l.rid for c in r.calls if c.rid is not None) and l.rid is not None:
+            out.append(('rejected request %s reached the adapter' % l.wire_id, {'kind': 'malformed_delivered'}))
+    wrong = [l for l in served_requests(r) if l.outcome == 'wrong' and l.method in WRONG_FOR and WRONG_FOR[l.method] in expected_calls(l)] if sc.kind == 'meta' else []
+    if sc.handler is not None:
+        if len(r.hand) != len(rej) + len(wrong):
+            out.append(('exception handler notified %d times for %d rejected requests (+%d wrong-typed returns)' % (len(r.hand), len(rej), len(wrong)), {'kind': 'handler_count'}))
+    elif sc.kind == 'data':
+        fal = [x for x in r.queue_log if isinstance(x, str) and x.split('|')[1:2] == ['FAL']]
+        if len(fal) != len(rej):
+            out.append(('%d failure notifications for %d rejected requests (default handling)' % (len(fal), len(rej)), {'kind': 'fal_count'}))
+    # service continues: every well-formed request of a known method received after the init request is answered
+    seen_init = False
+    for l in dl:
+        if l.kind == 'init':
+            seen_init = True
+        elif l.kind == 'req' and seen_init and l.klass[2] == b'T' and l.klass[3] == b'T' and l not in wrong:
+            if sc.kind == 'meta' or l.method in ('SUB', 'USB'):
+                n = len(rl.get(l.rid, []))
+                if n != 1 and not (sc.kind == 'data' and l.method == 'USB' and n == 0 and not data_usb_has_entry(r, l)):
+                    out.append(('well-formed request %s received after a rejected one has %d replies' % (l.wire_id, n), {'kind': 'service_interrupted'}))
+    return out
+
+
+def data_usb_has_entry(r, l):
+    """a USB for an item without bookkeeping (its SUB was rejected or never sent) is dropped by design"""
+    dl = delivered(r)
+    pos = dl.index(l)
+    state = False
+    seen_init = False
+    for x in dl[:pos]:
+        if x.kind == 'init':
+            seen_init = True
+        elif x.kind == 'req' and seen_init and x.klass[2] == b'T' and x.klass[3] == b'T' and x.q and x.q[1] == l.q[1]:
+            state = (x.method == 'SUB') or (x.method == 'USB' and False)
+            if x.method == 'SUB':
+                state = True
+            elif x.method == 'USB':
+                state = False
+    return state
+
+
+ORACLES = {'C09': oracle_c09, 'C04': oracle_c04, 'C10': oracle_c10, 'C14': oracle_c14, 'C18': oracle_c18, 'C20': oracle_c20}
